@@ -25,6 +25,13 @@ Theorem C19_down_inputs_necessary : forall te funcs items x,
 Proof. exact down_inputs_necessary. Qed.
 Print Assumptions C19_down_inputs_necessary.
 
+(* The declarative monitor the check evaluates on the implementation's reported inputs accepts what
+   netFlows computes (so a rejection is a deviation from netFlows' specification above). *)
+Theorem C19_monitor_accepts_model : forall te funcs items,
+  mon_inputs_exact te funcs items (fst (net_flows te funcs items)) = true.
+Proof. exact mon_inputs_exact_model. Qed.
+Print Assumptions C19_monitor_accepts_model.
+
 (* UpFlows (netFlows over received/returned types, last provider first): every returned type is
    reported as produced when no received type is left unresolved, and nothing is reported that no
    provider returns.  For every provider list. *)
